@@ -275,7 +275,8 @@ class PercentFormatString:
         needs_mapping = self.needs_mapping()
         for cs in self.specifiers:
             yield from cs.lint()
-            if needs_mapping:
+            # "%%" takes no argument, so it can be combined with either kind
+            if needs_mapping and cs.conversion_type != "%":
                 if (
                     cs.mapping_key is None
                     or cs.precision == "*"
@@ -308,7 +309,8 @@ class PercentFormatString:
         """Return a mapping from mapping key to conversion specifiers for that mapping key."""
         out = defaultdict(list)
         for specifier in self.specifiers:
-            if specifier.conversion_type != "%":
+            # specifiers without a key are reported by lint()
+            if specifier.conversion_type != "%" and specifier.mapping_key is not None:
                 out[specifier.mapping_key].append(specifier)
         return out
 
